@@ -567,7 +567,10 @@ func checkKeyProvenance(c *Ctx, name string, fn *ssa.Function, pub ssa.Value, us
 	ver, sign := use, use
 	// key provenance
 	pk, ok := strip(pub).(*ssa.Extract)
-	if !ok || func() bool { pc, isC := pk.Tuple.(*ssa.Call); return !isC || calleeName(pc) != "golang.org/x/crypto/ssh.ParseAuthorizedKey" }() {
+	if !ok || func() bool {
+		pc, isC := pk.Tuple.(*ssa.Call)
+		return !isC || calleeName(pc) != "golang.org/x/crypto/ssh.ParseAuthorizedKey"
+	}() {
 		// the key handed back by a helper that loads it
 		w.Focus(fn)
 		if ck, isEx := w.canon(fn, pub).(*ssa.Extract); isEx {
